@@ -1,13 +1,27 @@
 From RsdnsModel Require Import Base Names Writer.
 From RsdnsModel.Spec Require Import NameText.
-From RsdnsModel.Proofs Require Import WriterSafe.
+From RsdnsModel.Proofs Require Import WriterSafe WriterLayout.
 From RsdnsModel.Properties Require Import C11.
 Open Scope N_scope.
-Check (C11_no_oob_write : forall buf id qname qt qc rd opt, query_write buf id qname qt qc rd opt <> UB).
+Check (C11_no_oob_write : forall buf id qname qt qc rd opt,
+  query_write buf id qname qt qc rd opt <> UB).
 Check (C11_refuse_invalid : forall buf id qname qt qc rd opt b n,
   query_write buf id qname qt qc rd opt = Ok (b, n) -> valid_text qname = true).
-Check (C11_name_encoder_sound : forall w s w' n, write_name w s = Ok (w', n) -> check_name_bytes s = Ok tt /\ n <= 255).
+Check (C11_name_encoder_sound : forall w s w' n,
+  write_name w s = Ok (w', n) -> check_name_bytes s = Ok tt /\ n <= 255).
 Check (C11_std_async_same : forall id qname qt qc rd edns buflen,
   prepare_message true id qname qt qc rd edns buflen = prepare_message false id qname qt qc rd edns buflen).
-Print Assumptions C11_no_oob_write. Print Assumptions C11_refuse_invalid. Print Assumptions C11_name_encoder_sound.
-Print Assumptions C11_std_async_same. Print Assumptions C11_example.
+Check (C11_example : prepare_message true 4660 [x77;x77;x77;x2e;x61] 1 1 true (Some (0, 4096)) 1232 =
+  Ok [x00;x22; x12;x34; x01;x00; x00;x01; x00;x00; x00;x00; x00;x01;
+      x03;x77;x77;x77;x01;x61;x00; x00;x01; x00;x01;
+      x00; x00;x29; x04;xd0; x00;x00;x00;x00; x00;x00]).
+Check (C11_exact_layout : forall buf id qname qt qc rd opt b n,
+  query_write buf id qname qt qc rd opt = Ok (b, n) ->
+  let m := query_message id qname qt qc rd opt in
+  n = 2 + lenN m /\ n <= lenN buf /\ b = put buf 0 (be_bytes 2 ((lenN m) mod 65536) ++ m)).
+Check (C11_clients_message : forall std id qname qt qc rd edns recv_len b,
+  prepare_message std id qname qt qc rd edns recv_len = Ok b ->
+  let opt := match edns with Some (ver, ups) => Some (ver, (N.min ups recv_len) mod 65536) | None => None end in
+  let m := query_message id qname qt qc rd opt in
+  b = be_bytes 2 (lenN m mod 65536) ++ m).
+Print Assumptions C11_no_oob_write. Print Assumptions C11_refuse_invalid. Print Assumptions C11_name_encoder_sound. Print Assumptions C11_std_async_same. Print Assumptions C11_example. Print Assumptions C11_exact_layout. Print Assumptions C11_clients_message.
